@@ -35,6 +35,8 @@ pub struct Plan {
     pub fallback: Fallback,
     /// fail with this kind when the read position reaches this offset
     pub fail_at: Option<(usize, ErrorKind)>,
+    /// the scripted steps apply only once the read position has reached this offset (before it: fallback)
+    pub steps_start: usize,
     /// transient fault: fail once at that offset, then carry on delivering (false = the source keeps failing)
     pub fail_once: bool,
     /// deferred wakes are fired by a helper thread (needed under block_on bridges)
@@ -43,13 +45,13 @@ pub struct Plan {
 
 impl Plan {
     pub fn full() -> Plan {
-        Plan { steps: vec![], fallback: Fallback::Full, fail_at: None, fail_once: false, thread_wake: false }
+        Plan { steps: vec![], fallback: Fallback::Full, fail_at: None, steps_start: 0, fail_once: false, thread_wake: false }
     }
     pub fn chunk(k: usize) -> Plan {
-        Plan { steps: vec![], fallback: Fallback::Chunk(k.max(1)), fail_at: None, fail_once: false, thread_wake: false }
+        Plan { steps: vec![], fallback: Fallback::Chunk(k.max(1)), fail_at: None, steps_start: 0, fail_once: false, thread_wake: false }
     }
     pub fn steps(steps: Vec<Step>) -> Plan {
-        Plan { steps, fallback: Fallback::Full, fail_at: None, fail_once: false, thread_wake: false }
+        Plan { steps, fallback: Fallback::Full, fail_at: None, steps_start: 0, fail_once: false, thread_wake: false }
     }
 }
 
@@ -143,7 +145,7 @@ impl Scripted {
             Fallback::Full => want,
             Fallback::Chunk(k) => k,
         };
-        while l.step_idx < self.plan.steps.len() {
+        while l.step_idx < self.plan.steps.len() && l.pos >= self.plan.steps_start {
             let s = self.plan.steps[l.step_idx].clone();
             l.step_idx += 1;
             match s {
